@@ -53,6 +53,12 @@ func loadProgram() (*sym.Program, error) {
 	if err != nil {
 		return nil, err
 	}
+	if g, gerr := genGrammar(repoDir()); gerr == nil {
+		ov[repoDir()+"/input/ast/zz_verif_grammar_gen.go"] = g
+	} else {
+		// harnesses that need the grammar will fail to compile and report inconclusive
+		fmt.Fprintln(os.Stderr, "warning:", gerr)
+	}
 	t0 := time.Now()
 	p, err := sym.Load(repoDir(), ov)
 	if err != nil {
